@@ -11,6 +11,7 @@ MACHINE_OWNERS = {
     'machine-noinit': ['C02'],
     'machine-bad-op': ['C02'],
     'machine-harness-error': ['C02'],
+    'task-model-mismatch': ['C01', 'C02', 'C03', 'C04'],
 }
 CORR_WHATS = {'clip-mismatch', 'pattern', 'schedule-mismatch', 'truth-flag', 'budget-table-mismatch'}
 ASSUME = {
@@ -846,6 +847,8 @@ def check(ctx):
     cov = dict(evaluations=len(runs), distinct_nontrivial=distinct, rule=RULES[prop], samples=samples,
                traces_validated_against_impl=sum(1 for r in runs if r['machine'].get('stats', {}).get('events', 0) > 0),
                input_distribution=dist, oracle_totals=stat_tot, pass_wall_s=round(res['wall'], 1), exhaustive=False)
+    cov['runs_replayed_on_task_model'] = sum(1 for r in runs if (r['machine'].get('task') or {}).get('replayed'))
+    cov['task_model_records_compared'] = sum((r['machine'].get('task') or {}).get('records', 0) for r in runs)
     lights = [r['light'] for r in runs if r.get('light')]
     if lights:
         cov['runs_repeated_without_recorder'] = len(lights)
